@@ -61,6 +61,26 @@ CHECKS = {
    note=TRUST + 'Assumed: BTreeMap/Vec contract models; TopN keys abstract (u32) — the real key order is C05; abstract file system as in C01; quick tier '
         'runs the walker without a WHERE clause (every row matches), thorough with symbolic per-row verdicts. Bounds: 4/5 nodes, <= 2 members per archive.',
    technique=TECH),
+ 'C07': dict(
+   level='model_checking', design_ref='DESIGN.md §5 C07',
+   text='function::get_aggregate_value (all nine arms with their filter_map closures), get_mean, get_variance, get_buffer_sum and the aggregate branch of '
+        'Searcher::get_function_value / get_column_expr_value are executed symbolically from MIR over N symbolic rows (value absent / non-numeric / decimal): '
+        'z3 decides COUNT = N, SUM / MIN / MAX exact over bit-vectors, AVG = (sum as f64)/(count as f64) and VAR_*/STDDEV_* = the textbook formula in IEEE '
+        'binary64; an undecided float query falls back to the structural comparison plus a native battery of inputs (incl. values > 2^30). The argument of an '
+        'aggregate (also a scalar function such as LENGTH(name)) must be recorded in the row map under the key the aggregate reads.',
+   note=TRUST + 'Bounds: 0..3 (quick) / 0..5 (thorough) rows for the exact family with values < 2^16 (no claim about usize overflow of sums), 1..2 / 1..3 rows with '
+        'values < 2^8 for the float families. That the buffer holds exactly the entries matching WHERE is C01/C02.',
+   technique=TECH),
+ 'C08': dict(
+   level='model_checking', design_ref='DESIGN.md §5 C08',
+   text='The grouped tail of the real Searcher::list_search_results (entered from bb0 with no roots and a pre-filled row buffer), partition_output_buffer with its '
+        'closures, the per-group get_column_expr_value / get_function_value / get_aggregate_value and the ORDER BY comparator closure (through a sort_by model that '
+        'calls the real closure) are executed symbolically from MIR: for 0..N rows with every assignment of group keys and symbolic sizes z3 decides that the emitted '
+        'rows are exactly one per distinct key with the COUNT and SUM of that block, sorted by key or by count (asc / desc) when ORDER BY is given.',
+   note=TRUST + 'Bounds: 0..3 (quick) / 0..4 (thorough) rows, key values from a 3-entry table (the empty key doubles as "column absent"), one grouping key, '
+        'aggregates COUNT and SUM. HashMap iteration order is unspecified: rows are compared as a set unless ORDER BY is present. parse_group_by and the '
+        'grouping values written by check_file are not covered here (parser: C10 driver).',
+   technique=TECH),
 }
 REASON_TODO = 'check not built yet in this session (planned: see DESIGN.md §5); not claimed until it exists'
 NA = {}
